@@ -117,7 +117,10 @@ Record server := {
 Record request := {
   rq_host : string;
   rq_method : string;
-  rq_path : string;
+  rq_path : string;                      (* URL.Path: the DECODED path - what the router matches,
+                                            rewrites and keys the cache on *)
+  rq_rawpath : string;                   (* URL.RawPath: the wire encoding when it differs (%2F, %41 ...);
+                                            carried by the request, never consulted by the router *)
   rq_headers : list (string * string);   (* canonical key -> first value *)
   rq_ip : string }.                      (* realip.FromRequest *)
 
